@@ -33,8 +33,37 @@ def _strip_doc(body):
     return body
 
 
+def _alpha(fn):
+    """rename parameters and locals (names stored to inside `fn`) to v0, v1, … in order of first
+    occurrence, so that renaming a local does not change any table"""
+    order = []
+    for a in fn.args.posonlyargs + fn.args.args + fn.args.kwonlyargs:
+        if a.arg not in order and a.arg != "self":
+            order.append(a.arg)
+    for node in ast.walk(fn):
+        if isinstance(node, ast.Name) and isinstance(node.ctx, ast.Store) and node.id not in order:
+            order.append(node.id)
+        elif isinstance(node, ast.ExceptHandler) and node.name and node.name not in order:
+            order.append(node.name)
+    ren = {n: f"v{i}" for i, n in enumerate(order)}
+
+    class R(ast.NodeTransformer):
+        def visit_Name(self, node):
+            return ast.copy_location(ast.Name(id=ren.get(node.id, node.id), ctx=node.ctx), node)
+
+        def visit_arg(self, node):
+            node.arg = ren.get(node.arg, node.arg)
+            return node
+
+    import copy
+
+    return R().visit(copy.deepcopy(fn))
+
+
 def exits_of(fn: ast.FunctionDef):
-    """[(kind, value, guards)] in source order; nested function bodies are not entered."""
+    """[(kind, value, guards)] in source order; nested function bodies are not entered. Locals and
+    parameters are alpha-renamed first."""
+    fn = _alpha(fn)
     out = []
 
     def walk(stmts, guards):
@@ -82,7 +111,7 @@ def extract():
             if isinstance(node, (ast.FunctionDef, ast.AsyncFunctionDef)):
                 info["adapt"].append({"name": node.name, "args": [a.arg for a in node.args.args],
                                       "exits": exits_of(node), "calls": calls_of(node)})
-                info["hashes"][f"_adapt.py:{node.name}"] = _hash(ast.Module(body=_strip_doc(node.body), type_ignores=[]))
+                info["hashes"][f"_adapt.py:{node.name}"] = _hash(ast.Module(body=_strip_doc(_alpha(node).body), type_ignores=[]))
             elif isinstance(node, ast.ClassDef):
                 info["adapt"].append({"name": f"<class {node.name}>", "args": [], "exits": [], "calls": []})
             elif not isinstance(node, (ast.Import, ast.ImportFrom)):
